@@ -234,10 +234,11 @@ class HidDevice:
                 pile = self._piles[t] = []
                 self.loop.at(t, self._release_pile, t)
             pile.append((self.generation, data))
-            return
+            return t
         t = max(at_us * US, self._last_deliver + US, self.loop.time())
         self._last_deliver = t
         self.loop.at(t, self._arrive, self.generation, data)
+        return t
 
     def _release_pile(self, t):
         for gen, data in self._piles.pop(t, ()):
@@ -546,4 +547,4 @@ class HassebGW(HidDevice):
                 rep = bytes([self.OK, outcome[1]])
             else:
                 rep = bytes([self.INVALID, outcome[1] if len(outcome) > 1 else 0])
-        self.deliver(rep, t + self.lat.draw(self.name, self.nreports))
+        rec["rep_arrival_us"] = int(round(self.deliver(rep, t + self.lat.draw(self.name, self.nreports)) * 1e6))
